@@ -1025,20 +1025,15 @@ func (b *BaseStore) AddOperation(ctx context.Context, op operation.Operation, on
 	// appends: the cached local head is the entry of the last put, and it has to
 	// be the newest one for every acknowledged write to be found again on load
 	b.muWrite.Lock()
-	e, err := oplog.Append(ctx, data, &ipfslog.AppendOptions{PointerCount: b.referenceCount})
-	if err != nil {
-		b.muWrite.Unlock()
-		return nil, fmt.Errorf("unable to append data on log: %w", err)
-	}
 
-	verifhook.At("store.add.appended", b, e)
-	b.recalculateReplicationStatus(e.GetClock().GetTime())
-
-	// e names every head of the log in memory, so it covers the cached local
-	// head only when the log holds that head. A store that is not completely
-	// loaded (Load(n), LoadFromSnapshot) may not hold it: it is kept next to e,
-	// as replicationLoadComplete does for the remote heads
-	localHeads := []ipfslog.Entry{e}
+	// the new entry names every head of the log in memory, so it covers the
+	// cached local head only when the log holds that head at the moment of the
+	// append. A store that is not completely loaded (Load(n), LoadFromSnapshot,
+	// a Load still running) may not hold it: it is kept next to the new entry,
+	// as replicationLoadComplete does for the remote heads. What the log holds
+	// is looked at BEFORE the append: a head merged in between is not named by
+	// the new entry either
+	var keptHeads []ipfslog.Entry
 	if previousBytes, err := b.Cache().Get(ctx, datastore.NewKey("_localHeads")); err == nil {
 		var previous []*entry.Entry
 		if err := json.Unmarshal(previousBytes, &previous); err == nil {
@@ -1048,11 +1043,22 @@ func (b *BaseStore) AddOperation(ctx context.Context, op operation.Operation, on
 				}
 
 				if _, held := oplog.Get(h.GetHash()); !held {
-					localHeads = append(localHeads, h)
+					keptHeads = append(keptHeads, h)
 				}
 			}
 		}
 	}
+
+	e, err := oplog.Append(ctx, data, &ipfslog.AppendOptions{PointerCount: b.referenceCount})
+	if err != nil {
+		b.muWrite.Unlock()
+		return nil, fmt.Errorf("unable to append data on log: %w", err)
+	}
+
+	verifhook.At("store.add.appended", b, e)
+	b.recalculateReplicationStatus(e.GetClock().GetTime())
+
+	localHeads := append([]ipfslog.Entry{e}, keptHeads...)
 
 	marshaledEntry, err := json.Marshal(localHeads)
 	if err != nil {
